@@ -444,7 +444,12 @@ impl Sys {
                 format!("PANIC:{}", msg.replace(char::is_whitespace, "_"))
             }
         };
-        let obs = self.observe(&ret);
+        // After a panic inside krill a memory store's locks may be poisoned: observing must
+        // not take the harness down with it.
+        let obs = match std::panic::catch_unwind(std::panic::AssertUnwindSafe(|| self.observe(&ret))) {
+            Ok(o) => o,
+            Err(_) => json!({"ret": ret, "cmds": [], "poisoned": true}),
+        };
         (op.to_string(), obs.to_string())
     }
 
